@@ -1,6 +1,7 @@
 #!/usr/bin/env python3
 """C16 — new mail wakes the daemon: no lost trigger (every interleaving), bounded steps, no sleep with work pending,
-select preparation (timeout and descriptor sets) of the real daemon compared with Nq.SelPrep at every select."""
+select preparation (timeout and descriptor sets) of the real daemon compared with Nq.SelPrep at every select; the timeout is also judged
+against the minimum over ALL queued entries (not the heap root), with signals interrupting selects at every phase of the run."""
 import os, sys
 sys.path.insert(0, os.path.join(os.path.dirname(os.path.abspath(__file__)), "..", "tools"))
 import nqlib
@@ -10,6 +11,26 @@ from nqlib import Check, run_pipeline, parse_driver_output, standard_verdict, dr
 # qmail-send globals that harness/c16_snap.h reads (kept global in the qs instance; everything else is localised)
 SNAP_GLOBALS = ["flagexitasap", "flagspawnalive", "flagcleanup", "numjobs", "recent", "nexttodorun", "cleanuptime", "pass", "jo",
                 "pqdone", "pqchan", "pqfail", "comm_buf", "concurrency", "concurrencyused", "tododir", "chanfdout", "chanfdin"]
+
+
+def replay_lines(text):
+    """the cases of a replay file: either plain lines (schedule lines / 'm=...' scenario lines, '#' comments) or a replays/C16-*.json written by a
+    VIOLATION, whose 'raw' field is the driver's ORACLE/DISAGREE text: 'ninj=<n> snap=<s> sched=<c0,c1,..> why=...' or '<scenario> select#<k> why=...'"""
+    try:
+        import json
+        raw = json.loads(text).get("raw", "")
+    except Exception:
+        return [l for l in text.split("\n") if l.strip() and not l.lstrip().startswith("#")]
+    raw = raw.strip()
+    if raw.startswith("m="):
+        for stop in (" select#", " why=", " event#", " unparsable snapshot"):
+            if stop in raw:
+                raw = raw[:raw.index(stop)]
+        return [raw]
+    f = kv(raw)
+    if "sched" in f:
+        return ["%s %s %s" % (f.get("ninj", "2"), f.get("sched", "-"), f.get("snap", "0"))]
+    return []
 
 
 def main():
@@ -36,7 +57,7 @@ def main():
             replay_sel = None
             if c.replay:
                 # schedule lines ("<ninj> <c0,c1,..> <snap>") go to the trigger harness, scenario lines ("m=...") to the daemon harness
-                lines = [l for l in open(c.replay).read().split("\n") if l.strip()]
+                lines = replay_lines(open(c.replay).read())
                 sched = [l for l in lines if not l.lstrip().startswith("m=")]
                 scen = [l for l in lines if l.lstrip().startswith("m=")]
                 if sched:
@@ -45,9 +66,18 @@ def main():
                 if scen:
                     replay_sel = os.path.join(s.dir, "replay_scen.txt"); open(replay_sel, "w").write("\n".join(scen) + "\n")
             else:
+                # regression corpus (runs first): schedule lines go to the trigger harness, 'm=...' scenario lines to the daemon harness
                 corpus = os.path.join(VERIF, "corpus", "C16.txt")
+                corpus_sel = None
                 if os.path.exists(corpus):
-                    cmds.append("%s - < %s" % (h, corpus))
+                    cl = [l for l in open(corpus).read().split("\n") if l.strip() and not l.lstrip().startswith("#")]
+                    csched = [l for l in cl if not l.lstrip().startswith("m=")]
+                    cscen = [l for l in cl if l.lstrip().startswith("m=")]
+                    if csched:
+                        f1 = os.path.join(s.dir, "corpus_sched.txt"); open(f1, "w").write("\n".join(csched) + "\n")
+                        cmds.append("%s - < %s" % (h, f1))
+                    if cscen:
+                        corpus_sel = os.path.join(s.dir, "corpus_scen.txt"); open(corpus_sel, "w").write("\n".join(cscen) + "\n")
                 cmds.append("%s 0 100000 %d 0 1" % (h, c.seed))                       # one injector: exhaustive
                 cmds += ["%s 1 %d %d %d %d" % (h, nrand, c.seed, i, NCPU) for i in range(NCPU)]   # two injectors: random schedules
                 cmds += ["%s 2 %d %d %d %d" % (h, ndfs, c.seed, i, NCPU) for i in range(9)]       # two injectors: DFS, partitioned
@@ -56,7 +86,8 @@ def main():
             # select-preparation leg: the daemon scenarios of qsend.c with a snapshot of the daemon's globals at every select
             nsel = 240 if c.tier == "quick" else 8000
             selcmds = (["%s - < %s" % (hsel, replay_sel)] if replay_sel else
-                       [] if c.replay else ["%s %d %d %d %d" % (hsel, nsel, c.seed, i, NCPU) for i in range(NCPU)])
+                       [] if c.replay else (["%s - < %s" % (hsel, corpus_sel)] if corpus_sel else []) +
+                       ["%s %d %d %d %d" % (hsel, nsel, c.seed, i, NCPU) for i in range(NCPU)])
             if selcmds:
                 outs3 = run_pipeline(selcmds, drv + " selprep")
                 st3, sm3, di3, or3, er3 = parse_driver_output(outs3)
@@ -110,15 +141,26 @@ def main():
                      "(%s). Each trace is replayed through Trigger.accept; the oracle fails if the daemon ever sleeps with a positive timeout, or the run ends, while a completed injection is unprocessed, "
                      "or if a completed injection is not processed within the 2*|todo|+3 own steps of the daemon of C16_bounded. "
                      "Select preparation: in these runs and in the daemon scenarios of harness/qsend.c (deliveries, deferrals, bounce failures, signals, faults, crashes, restarts, "
-                     "concurrency bounds; harness/c16_selprep.c) the globals of the running qmail-send are read at every select (harness/c16_snap.h) and printed with the timeout and "
-                     "descriptor sets the real code passed; SelPrep.timeout/rfds/wfds must agree (DISAGREE) and the predicates of C16_no_spin / C16_early_return_acts are evaluated on "
-                     "the implementation's values (ORACLE: timeout 0 iff something pending, otherwise exactly min(due times, recent+SLEEP_FOREVER) - recent + SLEEP_FUZZ; only "
-                     "descriptors the loop body acts on are watched, and none it must react to is missing). non-trivial = distinct schedule / scenario" % ("capped at 150 schedules per partition in the quick tier" if c.tier == "quick" else "capped at 20000 schedules per partition"))
+                     "concurrency bounds; harness/c16_selprep.c) the globals of the running qmail-send are read at every select (harness/c16_snap.h), at the moment select() is entered, "
+                     "and printed with the timeout and descriptor sets the real code passed; SelPrep.timeout/rfds/wfds must agree (DISAGREE) and the predicates of C16_no_spin / "
+                     "C16_early_return_acts are evaluated on the implementation's values (ORACLE: timeout 0 iff something pending, otherwise exactly min(due times, recent+SLEEP_FOREVER) "
+                     "- recent + SLEEP_FUZZ; only descriptors the loop body acts on are watched, and none it must react to is missing). The snapshot also lists the due times of ALL "
+                     "entries of pqchan[0..1], pqfail, pqdone: the predicates of C16_never_past_any_queued are evaluated on the implementation's timeout against the minimum over everything "
+                     "queued (ORACLE, independent of which entry the heap has at its root), and its premise 'every root is a minimum' on the arrays (DISAGREE). c16_selprep.c adds to the "
+                     "scenarios of qsend.c: deferred-queue scenarios (3-6 messages, mostly deferred, some delivered/failed, arriving before/during/after the start-up scan, virtual time passing "
+                     "between selects: queues of three and more entries with distinct due times, entries leaving and coming back), SIGALRM/SIGHUP/SIGTERM that INTERRUPT a select (EINTR after "
+                     "0..999 permille of the timeout, nothing else happening at that call) at selects drawn from the whole run, clean stops/crashes followed by a restart on the deferred queue, "
+                     "and interrupt sweeps (base run, then one run per select point - every idle select with messages queued, every select next to a command/report/arrival, every 16th other - "
+                     "with SIGALRM/SIGHUP interrupting exactly that select). non-trivial = distinct schedule / scenario" % ("capped at 150 schedules per partition in the quick tier" if c.tier == "quick" else "capped at 20000 schedules per partition"))
     c.cov["exhaustive"] = False
     c.cov["samples"] = samples[:6] or ["(none)"]
     c.cov["input_distribution"] = {k: v for k, v in stats.items() if k.startswith("ev_") or k.startswith("snap_") or k.startswith("daemon_")}
-    c.assumptions += ["between recent = now() and select() the main loop only runs the *_selprep functions, which do not write the globals they read: "
-                      "the snapshot taken inside select() is what wakeup/timeout/descriptor sets were computed from",
+    c.cov["selects_with_a_queue_of_3_or_more_entries"] = int(stats.get("snap_some_queue_holds_3_or_more", 0))
+    c.cov["selects_interrupted_by_a_signal"] = int(stats.get("daemon_selects_interrupted_by_a_signal", 0))
+    c.assumptions += ["the snapshot is read inside select(), i.e. after everything the main loop does before it blocks: if anything between `recent = now()` and select() rewrites a global "
+                      "the *_selprep functions read (e.g. the signal flags being handled after them) the timeout no longer matches SelPrep.timeout(snapshot) and the select is reported; "
+                      "a rewrite that is undone again before select() would not be seen",
+                      "a select interrupted by a signal is modelled as: handler runs, part of the timeout elapses, -1/EINTR, no descriptor event consumed at that call",
                       "times are modelled as unbounded integers (no overflow of datetime_sec = long)",
                       "FIFO semantics of DESIGN.md 1.4 as implemented by harness/sim.c (ENXIO on open without reader, EPIPE on write without reader, "
                       "readable until the last descriptor closes)", "readdir may or may not report entries linked after opendir (both are exercised)",
